@@ -43,7 +43,7 @@ func (a *arena) take(content []byte) []byte {
 	return s
 }
 
-func (a *arena) freeze() { a.orig = append([]byte{}, a.buf...) }
+func (a *arena) freeze()      { a.orig = append([]byte{}, a.buf...) }
 func (a *arena) intact() bool { return bytes.Equal(a.buf, a.orig) }
 
 // TestC11SeqArgs: results depend only on the explicit arguments and arguments are not written.
